@@ -1,6 +1,7 @@
 package scen
 
 import (
+	"encoding/base64"
 	"encoding/binary"
 	"fmt"
 	"sync"
@@ -199,3 +200,30 @@ a=rtpmap:96 H265/90000
 a=fmtp:96 sprop-vps=QAEMAf//BAgAAAMAnQgAAAMAAF26AkA=; sprop-sps=QgEBBAgAAAMAnQgAAAMAAF2wAoCALRZbqSTK4BAAAAMAEAAAAwHggA==; sprop-pps=RAHBcrRiQA==
 a=control:streamid=0
 `
+
+// H.265 video (sprop parameter sets present) and AAC-hbr.
+const sdpH265AAC = `v=0
+o=- 0 0 IN IP4 127.0.0.1
+s=No Name
+c=IN IP4 127.0.0.1
+t=0 0
+m=video 0 RTP/AVP 96
+a=rtpmap:96 H265/90000
+a=fmtp:96 sprop-vps=QAEMAf//BAgAAAMAnQgAAAMAAF26AkA=; sprop-sps=QgEBBAgAAAMAnQgAAAMAAF2wAoCALRZbqSTK4BAAAAMAEAAAAwHggA==; sprop-pps=RAHBcrRiQA==
+a=control:streamid=0
+m=audio 0 RTP/AVP 97
+b=AS:160
+a=rtpmap:97 MPEG4-GENERIC/44100/2
+a=fmtp:97 profile-level-id=1;mode=AAC-hbr;sizelength=13;indexlength=3;indexdeltalength=3; config=121056E500
+a=control:streamid=1
+`
+
+var hevcVPS, hevcSPS, hevcPPS = mustB64("QAEMAf//BAgAAAMAnQgAAAMAAF26AkA="), mustB64("QgEBBAgAAAMAnQgAAAMAAF2wAoCALRZbqSTK4BAAAAMAEAAAAwHggA=="), mustB64("RAHBcrRiQA==")
+
+func mustB64(s string) []byte {
+	b, err := base64.StdEncoding.DecodeString(s)
+	if err != nil {
+		panic(err)
+	}
+	return b
+}
